@@ -43,10 +43,10 @@ def handle (fields : List String) (obs : String) : String × String :=
       let le := ins.foldl (fun le i => le.insert i.scope i.beh i.name i.val) LayerEnv.empty
       let out := le.apply qs env
       -- the model's env may hold shadowed duplicates only through `set`, which filters; render as a map
-      let model := renderEnv out ++ ";pure=1;permeq=1;histeq=1;empty=" ++ renderEnv (le.applyToEmpty qs)
+      let model := renderEnv out ++ ";pure=1;permeq=1;histeq=1;chaineq=1;empty=" ++ renderEnv (le.applyToEmpty qs)
       let verdict :=
         match obs.splitOn ";" with
-        | [oenv, "pure=1", "permeq=1", "histeq=1", oempty] =>
+        | [oenv, "pure=1", "permeq=1", "histeq=1", "chaineq=1", oempty] =>
         (match parseEnv oenv, parseEnv (oempty.drop 6).toString with
         | none, _ => "fail:unparsable-observation"
         | _, none => "fail:unparsable-observation"
@@ -63,10 +63,11 @@ def handle (fields : List String) (obs : String) : String × String :=
           | some n => "fail:variable " ++ hexEncode n ++ " expected " ++
               (match specApply ins qs env n with | some v => hexEncode v | none => "unset") ++ " got " ++
               (match o.get n with | some v => hexEncode v | none => "unset"))
-        | [_, "pure=0", _, _, _] => "fail:input environment was modified"
-        | [_, _, "permeq=0", _, _] => "fail:result depends on insertion order"
+        | [_, "pure=0", _, _, _, _] => "fail:input environment was modified"
+        | [_, _, "permeq=0", _, _, _] => "fail:result depends on insertion order"
         -- the same entries, inserted with queries made in between, must apply like the freshly built value
-        | [_, _, _, "histeq=0", _] => "fail:result depends on queries made before later inserts"
+        | [_, _, _, "histeq=0", _, _] => "fail:result depends on queries made before later inserts"
+        | [_, _, _, _, "chaineq=0", _] => "fail:chainable_insert builds a different value than insert"
         | _ => "fail:unparsable-observation"
       (model, verdict)
     | _, _, _ => ("bad-op", "bad-op")
